@@ -17,14 +17,12 @@ PID = "C07"
 # Unbounded blocking primitives of the package and the rule that guarantees their wake-up.
 BLOCKING_REGISTRY = {
     ("state.py:ExecutionState.create_checkpoint", "completion_event.wait"): "C06/R1+R2: the consumer releases every enqueued event on success and on failure",
-    ("state.py:ExecutionState.create_checkpoint", "self._checkpointing_failed.wait"): "dominated by is_set(): returns/raises immediately",
     ("concurrency/executor.py:ConcurrentExecutor.execute", "self._completion_event.wait"): "C06/R4 + C09/R4: every branch outcome reaches the event; empty input returns early",
     ("execution.py:durable_execution.<locals>.wrapper", "user_future.result"): "termination of the user handler thread (user code)",
     ("threading.py:OrderedLock.acquire", "event.wait"): "C19: enqueue-before-wait and release hands over to the head",
     ("concurrency/executor.py:ConcurrentExecutor._on_task_complete", "future.result"): "done-callback: the future is already finished",
     ("config.py:StepFuture.result", "self.future.result"): "public helper, not used by the SDK; bounded when the caller passes a timeout",
     ("threading.py:CompletionEvent.wait", "self._event.wait"): "wrapper primitive: judged at its call sites",
-    ("state.py:ExecutionState.raise_if_checkpointing_failed", "self._checkpointing_failed.wait"): "dominated by is_set(): returns/raises immediately",
     ("execution.py:durable_execution.<locals>.wrapper.<locals>.raise_if_checkpointing_failed", "checkpoint_future.result"):
         "dominated by stop_checkpointing(): the consumer loops observe the stop flag (C18/R4.consumer-loops-observe-stop) and the loop's API call is bounded by the client",
 }
@@ -221,7 +219,10 @@ def build() -> Check:
             recv = ast.unparse(c.func.value)
             unbounded = False
             if m == "wait" and not has_timeout:
-                unbounded = True
+                # `if ev.is_set(): ev.wait()` returns (or raises the stored error) immediately: not a blocking point
+                guarded = any(isinstance(g_, ast.If) and ast.unparse(g_.test).replace(" ", "") == f"{recv}.is_set()".replace(" ", "")
+                              and any(c is x for b_ in g_.body for x in ast.walk(b_)) for g_ in ast.walk(fi.node))
+                unbounded = not guarded
             elif m == "result" and not has_timeout and any(w in recv.lower() for w in ("future", "fut")):
                 unbounded = True
             elif m == "get" and not c.args and not c.keywords:
